@@ -29,11 +29,14 @@ Definition core_of (s : schema) : score := match s with Sch c _ _ _ _ _ _ _ => c
 
 Record settings := mkSt {
   st_failfast : bool; st_multi : bool; st_asreq : bool; st_asrep : bool;
-  st_roOff : bool; st_woOff : bool
+  st_roOff : bool; st_woOff : bool;
+  st_usenum : bool    (* the value was decoded with json.Decoder.UseNumber (request/response bodies):
+                         its numbers are json.Number, which reflect.DeepEqual never equates with the
+                         float64 numbers of an enum member *)
 }.
-Definition st_default := mkSt false false false false false false.
-Definition st_failfast_ := mkSt true false false false false false.
-Definition st_multi_ := mkSt false true false false false false.
+Definition st_default := mkSt false false false false false false false.
+Definition st_failfast_ := mkSt true false false false false false false.
+Definition st_multi_ := mkSt false true false false false false false.
 
 (* error construction sites: one per SchemaField/Reason pair of schema.go *)
 Inductive site :=
@@ -357,10 +360,19 @@ Section ORACLES.
     | Panic w :: _ => Panic w
     end.
 
+  (* visitEnumOperation: a top-level number is compared numerically; anything else by
+     reflect.DeepEqual, for which a json.Number inside the value equals no float64 *)
+  Definition enum_eq (st : settings) (v m : json) : bool :=
+    if st_usenum st then
+      match v with
+      | JNum _ => json_eqb v m
+      | _ => json_eq_gen (fun _ _ => false) v m
+      end
+    else json_eqb v m.
   Definition enum_step (st : settings) (c : score) (v : json) : outcome :=
     match c_enum c with
     | [] => Ok
-    | en => if json_in json_eqb v en then Ok else Err (fail st S_enum c v)
+    | en => if json_in (enum_eq st) v en then Ok else Err (fail st S_enum c v)
     end.
 
   Definition null_step (st : settings) (c : score) : outcome :=
